@@ -13,7 +13,8 @@ use std::collections::BTreeSet;
 #[derive(Clone, Copy, PartialEq, Eq, Hash, Debug, PartialOrd, Ord)]
 pub enum Feature {
     Piece(Side, Kind, Sq),
-    Castle(Side, u8),
+    /// (colour, wing: 0 short / 1 long, rook file)
+    Castle(Side, u8, u8),
     Ep(u8),
     BlackToMove,
 }
@@ -22,7 +23,7 @@ impl Feature {
     pub fn text(&self) -> String {
         match self {
             Feature::Piece(s, k, q) => format!("{}{}@{}", if *s == Side::W { 'w' } else { 'b' }, k.upper(), sq_name(*q)),
-            Feature::Castle(s, f) => format!("{}castle:{}", if *s == Side::W { 'w' } else { 'b' }, file_char(*f)),
+            Feature::Castle(s, w, f) => format!("{}castle-{}:{}", if *s == Side::W { 'w' } else { 'b' }, if *w == 0 { "short" } else { "long" }, file_char(*f)),
             Feature::Ep(f) => format!("ep:{}", file_char(*f)),
             Feature::BlackToMove => "black-to-move".into(),
         }
@@ -42,7 +43,7 @@ pub fn features(p: &Pos) -> BTreeSet<Feature> {
     for side in [Side::W, Side::B] {
         for wing in 0..2 {
             if let Some(f) = p.rights[side.idx()][wing] {
-                s.insert(Feature::Castle(side, f));
+                s.insert(Feature::Castle(side, wing as u8, f));
             }
         }
     }
@@ -58,6 +59,8 @@ pub struct KeyModel {
     pub king: [[u64; 64]; 2],
     pub piece: Vec<Vec<Vec<Option<u64>>>>, // [side][kind][sq]
     pub castle: [[Option<u64>; 8]; 2],
+    /// [side][wing][file]
+    pub castle_by_wing: [[[Option<u64>; 8]; 2]; 2],
     pub castle_wing_independent: bool,
     pub ep: [Option<u64>; 8],
     pub side: u64,
@@ -134,6 +137,7 @@ impl KeyModel {
         }
         // castle keys, both wings where possible
         let mut castle = [[None; 8]; 2];
+        let mut castle_by_wing = [[[None; 8]; 2]; 2];
         let mut wing_independent = true;
         for side_c in [Side::W, Side::B] {
             let br = side_c.back_rank();
@@ -151,6 +155,7 @@ impl KeyModel {
                     st.rights[side_c.idx()][wing] = Some(f as u8);
                     if let (Some(a), Some(b)) = (hash_of(&st), hash_of(&without)) {
                         vals.push(a ^ b);
+                        castle_by_wing[side_c.idx()][wing][f as usize] = Some(a ^ b);
                     }
                 }
                 if vals.len() == 2 && vals[0] != vals[1] {
@@ -185,7 +190,7 @@ impl KeyModel {
                 notes.push(format!("EP key file {} not extractable", f));
             }
         }
-        Ok(KeyModel { base, ref_sq, king, piece, castle, castle_wing_independent: wing_independent, ep, side, notes })
+        Ok(KeyModel { base, ref_sq, king, piece, castle, castle_by_wing, castle_wing_independent: wing_independent, ep, side, notes })
     }
 
     /// Hash the model predicts for a position; None if a needed key is unobservable.
@@ -228,9 +233,11 @@ impl KeyModel {
                     }
                 }
             }
-            for f in 0..8u8 {
-                if let Some(k) = self.castle[side.idx()][f as usize] {
-                    v.push((Feature::Castle(side, f), k));
+            for wing in 0..2u8 {
+                for f in 0..8u8 {
+                    if let Some(k) = self.castle_by_wing[side.idx()][wing as usize][f as usize] {
+                        v.push((Feature::Castle(side, wing, f), k));
+                    }
                 }
             }
         }
@@ -249,7 +256,7 @@ pub fn realise(d: &BTreeSet<Feature>) -> Option<(RawState, RawState)> {
     let feats: Vec<Feature> = d.iter().copied().collect();
     let n = feats.len();
     let has_king_feature = |c: Side| feats.iter().any(|f| matches!(f, Feature::Piece(s, Kind::K, _) if *s == c));
-    let needs_back_rank = |c: Side| feats.iter().any(|f| matches!(f, Feature::Castle(s, _) if *s == c));
+    let needs_back_rank = |c: Side| feats.iter().any(|f| matches!(f, Feature::Castle(s, _, _) if *s == c));
     let cand = |c: Side| -> Vec<Option<Sq>> {
         if has_king_feature(c) {
             return vec![None];
@@ -318,7 +325,7 @@ pub fn realise(d: &BTreeSet<Feature>) -> Option<(RawState, RawState)> {
                     for (i, f) in feats.iter().enumerate() {
                         let in_a = split & (1 << i) != 0;
                         match f {
-                            Feature::Castle(c, file) => {
+                            Feature::Castle(c, wing, file) => {
                                 let br = c.back_rank();
                                 let rs = sq(*file as i32, br) as usize;
                                 for st in [&mut a, &mut b] {
@@ -327,16 +334,12 @@ pub fn realise(d: &BTreeSet<Feature>) -> Option<(RawState, RawState)> {
                                     }
                                 }
                                 let tgt = if in_a { &mut a } else { &mut b };
-                                match tgt.king_sq(*c) {
-                                    Some(k) if rank_of(k) == br && file_of(k) != *file as i32 => {
-                                        let wing = if (*file as i32) > file_of(k) { 0 } else { 1 };
-                                        if tgt.rights[c.idx()][wing].is_some() {
-                                            ok = false;
-                                        }
-                                        tgt.rights[c.idx()][wing] = Some(*file);
-                                    }
-                                    _ => ok = false,
+                                // the wing is part of the feature: the library decides whether a
+                                // right on that wing is acceptable for this king placement
+                                if tgt.rights[c.idx()][*wing as usize].is_some() {
+                                    ok = false;
                                 }
+                                tgt.rights[c.idx()][*wing as usize] = Some(*file);
                             }
                             Feature::Ep(file) => {
                                 let tgt_stm = if in_a { a.stm } else { b.stm };
